@@ -175,7 +175,8 @@ pub fn run_render(seed: u64, tier: &str, out: &mut Out) {
                 if !wide_used && rng.chance(1, 6) { wide_used = true; tpl.push_str(*rng.pick(&["{wide_bar}", "{wide_msg}", "{wide_msg:>}", "{wide_bar:.green/red}"])); continue; }
                 let key = *rng.pick(&keys);
                 if key == "spinner" { has_spinner = true; }
-                let attr = match rng.below(6) { 0 => format!(":{}", rng.pick(&[0u64, 1, 3, 8, 15])), 1 => format!(":>{}", rng.pick(&[2u64, 6, 12])), 2 => format!(":^{}!", rng.pick(&[1u64, 4, 9])), 3 if key != "bar" => ":<".to_string(), _ => String::new() };
+                // (`per_sec` reads its width field as the number of decimals: large ones too)
+                let attr = match rng.below(6) { 0 if key == "per_sec" && rng.chance(1, 3) => format!(":{}", rng.pick(&[24u64, 30, 48, 60])), 0 => format!(":{}", rng.pick(&[0u64, 1, 3, 8, 15])), 1 => format!(":>{}", rng.pick(&[2u64, 6, 12])), 2 => format!(":^{}!", rng.pick(&[1u64, 4, 9])), 3 if key != "bar" => ":<".to_string(), _ => String::new() };
                 tpl.push_str(&format!("{{{key}{attr}}}"));
             }
         }
